@@ -857,6 +857,17 @@ def resolve_helper(P: Program, f: Func, c: ast.Call) -> Optional[Func]:
                 target = t
         elif kind == "plain" and not (isinstance(fn.value, ast.Name) and fn.value.id == t.cls):
             target = t                     # x.m(..): a new method that only one class of the package defines
+    if target is None and isinstance(fn, ast.Attribute) and isinstance(fn.value, ast.Name) and fn.value.id not in ("self", "cls"):
+        # x.m(..) where the local x is bound once, to an instance of a class the pinned tree does not have: the method of that class, whatever its name
+        x = fn.value.id
+        binds = [n for n in own_nodes(f.node) if isinstance(n, ast.Name) and n.id == x and isinstance(n.ctx, (ast.Store, ast.Del))]
+        if len(binds) == 1 and x not in f.params():
+            st = parent(binds[0])
+            if isinstance(st, (ast.Assign, ast.AnnAssign)) and isinstance(st.value, ast.Call) and isinstance(st.value.func, ast.Name) and st.value.func.id not in pinned_class_names():
+                for m_ in P.real_modules():
+                    cl = m_.classes.get(st.value.func.id)
+                    if cl is not None and fn.attr in cl.methods and _kind_of_method(cl.methods[fn.attr]) == "plain" and not fn.attr.startswith("__"):
+                        return cl.methods[fn.attr]
     if target is None or same_fn(target, f):
         return None
     if target.name.startswith("__"):
@@ -1103,6 +1114,8 @@ def inline_helpers(P: Program, f: Func, depth: int = 2) -> Func:
             v = _search_result_flow(v)               # what an Optional-returning search helper leaves behind
             v = _list_copy_alias(v)                  # `xs = list(<materialised generator>)`
         v = _plain_assignments(v)
+        v = _local_objects(P, v)                     # a never-escaping instance of a small new class is a bundle of locals
+        v = _plain_assignments(v)
         v = _bucket_reads(v)                         # group-by-field dict + lookup  ==  filter by that field
         v = _named_literals(P, v)                    # a module constant the pinned tree does not have stands for its literal
         v = inline_predicates(P, v)                  # side-effect-free one-expression helpers, wherever they are called (loop tests, arguments, ...)
@@ -1303,6 +1316,98 @@ def _search_result_flow(f: Func) -> Func:
                     break
             if again:
                 break
+    # the same after a case split instead of a search loop (a looked-through helper with guard-clause returns):
+    #     if c: X = None              if c: X = None; JUMP
+    #     else: ...; X = V      ==    else: ...; X = V; REST
+    #     if X is None: JUMP
+    #     REST
+    def leaves(stmts, X):
+        """the blocks in which the statement list ends, if every one of them ends with an assignment to X; else None"""
+        if not stmts:
+            return None
+        last = stmts[-1]
+        if isinstance(last, ast.Assign) and len(last.targets) == 1 and norm.is_name(last.targets[0], X):
+            return [stmts]
+        if isinstance(last, ast.If) and last.orelse:
+            a, b = leaves(last.body, X), leaves(last.orelse, X)
+            if a is not None and b is not None:
+                return a + b
+        return None
+    again = True
+    rounds = 0
+    while again and rounds < 6:
+        again = False
+        rounds += 1
+        for owner in list(ast.walk(node)):
+            for fld, blk in list(_block_lists(owner)):
+                for i, cs in enumerate(blk):
+                    if not (isinstance(cs, ast.If) and cs.orelse and i + 1 < len(blk)):
+                        continue
+                    guard = blk[i + 1]
+                    if not (isinstance(guard, ast.If) and not guard.orelse and isinstance(guard.test, ast.Compare) and len(guard.test.ops) == 1
+                            and isinstance(guard.test.ops[0], ast.Is) and isinstance(guard.test.left, ast.Name)
+                            and isinstance(guard.test.comparators[0], ast.Constant) and guard.test.comparators[0].value is None
+                            and guard.body and isinstance(guard.body[-1], (ast.Continue, ast.Return, ast.Raise, ast.Break))):
+                        continue
+                    X = guard.test.left.id
+                    lv = leaves([cs], X)
+                    if lv is None or len(lv) > 4:
+                        continue
+                    rest = blk[i + 2:]
+                    kinds = []
+                    for leaf in lv:
+                        val = leaf[-1].value
+                        if isinstance(val, ast.Constant) and val.value is None:
+                            kinds.append("none")
+                        elif isinstance(val, (ast.Tuple, ast.List, ast.Dict, ast.JoinedStr)) or (isinstance(val, ast.Constant) and val.value is not None) \
+                                or (isinstance(val, ast.Call) and isinstance(val.func, ast.Name) and val.func.id[:1].isupper()):
+                            kinds.append("value")
+                        else:
+                            kinds.append("unknown")
+                    if "unknown" in kinds or "none" not in kinds:
+                        continue
+                    for leaf, kd in zip(lv, kinds):
+                        leaf.extend([norm.clone(x) for x in (guard.body if kd == "none" else rest)])
+                    del blk[i + 1:]
+                    again = changed = True
+                    break
+                if again:
+                    break
+            if again:
+                break
+    # `a, b = X` after a case split every live branch of which ends with `X = (va, vb)`: unpacked where the pair is made
+    def live_leaves(stmts, X):
+        if not stmts:
+            return None
+        last = stmts[-1]
+        if isinstance(last, (ast.Continue, ast.Break, ast.Return, ast.Raise)):
+            return []
+        if isinstance(last, ast.Assign) and len(last.targets) == 1 and norm.is_name(last.targets[0], X):
+            return [stmts]
+        if isinstance(last, ast.If) and last.orelse:
+            a, b = live_leaves(last.body, X), live_leaves(last.orelse, X)
+            if a is not None and b is not None:
+                return a + b
+        return None
+    for owner in list(ast.walk(node)):
+        for fld, blk in list(_block_lists(owner)):
+            k = 1
+            while k < len(blk):
+                st, pv = blk[k], blk[k - 1]
+                if isinstance(st, ast.Assign) and len(st.targets) == 1 and isinstance(st.targets[0], ast.Tuple) and isinstance(st.value, ast.Name) \
+                        and all(isinstance(t, ast.Name) for t in st.targets[0].elts) and isinstance(pv, ast.If):
+                    X = st.value.id
+                    lv = live_leaves([pv], X)
+                    tnames = {t.id for t in st.targets[0].elts}
+                    if lv and len(lv) <= 8 and all(isinstance(leaf[-1].value, ast.Tuple) and len(leaf[-1].value.elts) == len(st.targets[0].elts)
+                                                    and not (tnames & {x.id for x in ast.walk(leaf[-1].value) if isinstance(x, ast.Name)}) for leaf in lv):
+                        for leaf in lv:
+                            vals = leaf[-1].value.elts
+                            leaf.extend([ast.copy_location(ast.Assign(targets=[norm.clone(t)], value=norm.clone(v_)), st) for t, v_ in zip(st.targets[0].elts, vals)])
+                        del blk[k]
+                        changed = True
+                        continue
+                k += 1
     # a, b = X  right after  X = (va, vb)
     for owner in list(ast.walk(node)):
         for fld, blk in list(_block_lists(owner)):
@@ -1312,7 +1417,9 @@ def _search_result_flow(f: Func) -> Func:
                 if isinstance(st, ast.Assign) and len(st.targets) == 1 and isinstance(st.targets[0], ast.Tuple) and isinstance(st.value, ast.Name) \
                         and isinstance(pv, ast.Assign) and len(pv.targets) == 1 and norm.is_name(pv.targets[0], st.value.id) and isinstance(pv.value, ast.Tuple) \
                         and len(pv.value.elts) == len(st.targets[0].elts) and all(isinstance(t, ast.Name) for t in st.targets[0].elts) \
-                        and all(isinstance(v, ast.Name) for v in pv.value.elts):
+                        and all(isinstance(v, (ast.Name, ast.Constant)) or norm.attr_chain(v) is not None or (isinstance(v, ast.Subscript) and norm.attr_chain(v.value) is not None)
+                                for v in pv.value.elts) \
+                        and not ({t.id for t in st.targets[0].elts} & {x.id for v in pv.value.elts for x in ast.walk(v) if isinstance(x, ast.Name)}):
                     new = [ast.copy_location(ast.Assign(targets=[t], value=norm.clone(v)), st) for t, v in zip(st.targets[0].elts, pv.value.elts)]
                     blk[k:k + 1] = new
                     changed = True
@@ -1395,6 +1502,109 @@ def _list_copy_alias(f: Func) -> Func:
                 ch._parent = n  # type: ignore[attr-defined]
         node._parent = getattr(f.node, "_parent", None)  # type: ignore[attr-defined]
         return _list_copy_alias(Func(f.mod, f.qual, node, f.cls))
+    return f
+
+
+def _local_objects(P: Program, f: Func) -> Func:
+    """`v = C(..)` where C is a small class the pinned tree does not have, v is bound once and never escapes (after C's methods were looked through,
+    v occurs only as `v.<field>`): the object is a bundle of locals — C.__init__ written out with `v__<field>` for `self.<field>`, and every
+    `v.<field>` read or stored as that local."""
+    pinned = pinned_class_names()
+    for st in [n for n in own_nodes(f.node) if isinstance(n, ast.Assign) and len(n.targets) == 1 and isinstance(n.targets[0], ast.Name) and isinstance(n.value, ast.Call)
+               and isinstance(n.value.func, ast.Name) and n.value.func.id not in pinned]:
+        cname, v = st.value.func.id, st.targets[0].id
+        cls = None
+        for m in P.real_modules():
+            if cname in m.classes:
+                cls = m.classes[cname]
+        if cls is None or "__init__" not in cls.methods or v in f.params():
+            continue
+        if any(isinstance(b, ast.Name) and b.id not in ("object",) for b in cls.node.bases) or cls.node.bases and not all(isinstance(b, ast.Name) and b.id == "object" for b in cls.node.bases):
+            continue
+        ini = cls.methods["__init__"]
+        ia = ini.node.args
+        if ia.vararg or ia.kwarg or ia.kwonlyargs or any(isinstance(x, (ast.Return, ast.Yield, ast.YieldFrom)) and getattr(x, "value", None) is not None for x in own_nodes(ini.node)):
+            continue
+        occ = [n for n in own_nodes(f.node) if isinstance(n, ast.Name) and n.id == v]
+        if sum(1 for n in occ if isinstance(n.ctx, (ast.Store, ast.Del))) != 1:
+            continue
+        fields: Set[str] = set()
+        ok = True
+        for n in occ:
+            if n is st.targets[0]:
+                continue
+            p_ = parent(n)
+            if isinstance(p_, ast.Attribute) and p_.value is n and p_.attr not in cls.methods:
+                fields.add(p_.attr)
+            else:
+                ok = False
+        if not ok:
+            continue
+        # C.__init__ with self := the bundle
+        selfn = ini.params()[0]
+        params = ini.params()[1:]
+        call = st.value
+        if any(isinstance(a, ast.Starred) for a in call.args) or any(k.arg is None for k in call.keywords) or len(call.args) > len(params):
+            continue
+        env: Dict[str, ast.expr] = {}
+        for p_, a in zip(params, call.args):
+            env[p_] = a
+        for k in call.keywords:
+            if k.arg in params:
+                env[k.arg] = k.value
+        defaults = ia.defaults
+        dmap = dict(zip(params[len(params) - len(defaults):], defaults)) if defaults else {}
+        for p_ in params:
+            if p_ not in env and p_ in dmap:
+                env[p_] = dmap[p_]
+        if any(p_ not in env for p_ in params):
+            continue
+        body = [norm.clone(s_) for s_ in ini.node.body if not (isinstance(s_, ast.Expr) and isinstance(s_.value, ast.Constant))]
+        if any(isinstance(x, ast.Name) and x.id == selfn and not (isinstance(getattr(x, "_parent", None), ast.Attribute)) for s_ in ini.node.body for x in ast.walk(s_)):
+            continue      # self escapes from the constructor
+
+        def fld(name):
+            return f"{v}__{name}"
+
+        class T(ast.NodeTransformer):
+            def __init__(self, sname):
+                self.sname = sname
+
+            def visit_Attribute(self, a):
+                self.generic_visit(a)
+                if isinstance(a.value, ast.Name) and a.value.id == self.sname:
+                    return ast.copy_location(ast.Name(id=fld(a.attr), ctx=a.ctx), a)
+                return a
+
+            def visit_AnnAssign(self, n):
+                self.generic_visit(n)
+                if isinstance(n.target, ast.Name) and n.value is not None:
+                    return ast.copy_location(ast.Assign(targets=[n.target], value=n.value), n)
+                return n
+        new_init = []
+        for s_ in body:
+            s2 = T(selfn).visit(s_)
+            s2 = norm.Subst(env).visit(s2)
+            new_init.append(s2)
+        node = norm.clone(f.node)
+        m_ = {id(a): b for a, b in zip(ast.walk(f.node), ast.walk(node))}
+        cst = m_[id(st)]
+        par = m_[id(parent(st))]
+        for s2 in new_init:
+            for x in ast.walk(s2):
+                ast.copy_location(x, cst) if not hasattr(x, "lineno") else None
+        for fldn in ("body", "orelse", "finalbody"):
+            b = getattr(par, fldn, None)
+            if isinstance(b, list) and any(x is cst for x in b):
+                i_ = [k for k, x in enumerate(b) if x is cst][0]
+                b[i_:i_ + 1] = new_init or [ast.Pass()]
+        node = T(v).visit(node)
+        ast.fix_missing_locations(node)
+        for n in ast.walk(node):
+            for ch in ast.iter_child_nodes(n):
+                ch._parent = n  # type: ignore[attr-defined]
+        node._parent = getattr(f.node, "_parent", None)  # type: ignore[attr-defined]
+        return _local_objects(P, Func(f.mod, f.qual, node, f.cls))
     return f
 
 
